@@ -52,6 +52,9 @@ for crate, txt in (('nsym', text), ('vstd', open('/tmp/probe/vstd.mir').read()),
         cands = [n for n in fns if n == full or n.endswith('::' + nm)]
         ip.alloc_static[(crate, m.group(1))] = ([n for n in cands if n.startswith('vstd::') == (crate == 'vstd')] or cands or [full])[0]
 models.install(ip); models.install2(ip); models.install3(ip); models.install4(ip); models.install5(ip); models.install6(ip); models.install7(ip); models.install8(ip); models.install9(ip)
+import threads, threading
+threading.stack_size(256*1024*1024); sys.setrecursionlimit(100000)
+threads.install(ip)
 entry = sys.argv[1]
 t = time.time()
 orig_run_path = ip.run
